@@ -927,21 +927,46 @@ Theorem render_parse_roundtrip_partial :
                /\ nt_text (render t) = Ok t' /\ same_content4 t t' = true.
 Proof. do 2 eexists. split; [vm_compute; reflexivity|]. split; [vm_compute; reflexivity|]. split; vm_compute; reflexivity. Qed.
 
-(* a dynamic target beside fixed weights summing to 1 is not rendered: the re-parsed table has
-   one target, the table had two *)
+(* F-C05-2, REPAIRED in /repo by cb21db5.  Before the repair a dynamic target beside fixed
+   weights summing to 1 was not rendered: the re-parsed table had one target, the table had two.
+   The theorem is about [render_skipping], the old Route.config ... *)
+Definition ex_zero_weight : str :=
+  bs "route add svc-a foo.com/ http://10.0.0.1:80/ weight 1" ++ nl
+  ++ bs "route add svc-b foo.com/ http://10.0.0.2:80/".
 Theorem zero_weight_dropped_refuted :
-  exists t t', nt_text (bs "route add svc-a foo.com/ http://10.0.0.1:80/ weight 1" ++ nl
-                        ++ bs "route add svc-b foo.com/ http://10.0.0.2:80/") = Ok t
+  exists t t', nt_text ex_zero_weight = Ok t
                /\ length (flat t) = 2%nat
-               /\ nt_text (render t) = Ok t' /\ length (flat t') = 1%nat.
+               /\ nt_text (render_skipping t) = Ok t' /\ length (flat t') = 1%nat.
 Proof. do 2 eexists. split; [vm_compute; reflexivity|]. split; [vm_compute; reflexivity|]. split; vm_compute; reflexivity. Qed.
 
-(* a tag with a backslash is printed with %q and comes back with two *)
+(* ... and the same witness through String() as it is now rebuilds the same table *)
+Theorem zero_weight_kept :
+  exists t, nt_text ex_zero_weight = Ok t /\ length (flat t) = 2%nat /\ nt_text (render t) = Ok t.
+Proof. eexists. split; [vm_compute; reflexivity|]. split; vm_compute; reflexivity. Qed.
+
+(* F-C05-3a, REPAIRED in /repo by dfc4ae0.  Before the repair a tag with a backslash was printed
+   with %q and came back with two; the theorem is about [render_unrepaired], the old renderer ... *)
 Theorem tag_escape_refuted :
   exists t t', nt_text (bs "route add svc foo.com/ http://10.0.0.1:80/ tags ""x\y""") = Ok t
                /\ map (fun x => t_tags (snd x)) (flat t) = [[bs "x\y"]]
-               /\ nt_text (render t) = Ok t'
+               /\ nt_text (render_unrepaired t) = Ok t'
                /\ map (fun x => t_tags (snd x)) (flat t') = [[bs "x\\y"]].
+Proof. do 2 eexists. split; [vm_compute; reflexivity|]. split; [vm_compute; reflexivity|]. split; vm_compute; reflexivity. Qed.
+
+(* ... and the same witness round-trips through the renderer as it is now *)
+Theorem tag_escape_repaired :
+  exists t, nt_text (bs "route add svc foo.com/ http://10.0.0.1:80/ tags ""x\y""") = Ok t
+            /\ map (fun x => t_tags (snd x)) (flat t) = [[bs "x\y"]]
+            /\ nt_text (render t) = Ok t.
+Proof. eexists. split; [vm_compute; reflexivity|]. split; vm_compute; reflexivity. Qed.
+
+(* F-C05-3 (open), what remains: a single empty tag (tags " ") is rendered as tags "" and read
+   back as no tags at all *)
+Theorem empty_tag_refuted :
+  exists t t', nt_text (bs "route add svc foo.com/ http://10.0.0.1:80/ tags "" """) = Ok t
+               /\ map (fun x => t_tags (snd x)) (flat t) = [[[]]]
+               /\ nt_text (render t) = Ok t'
+               /\ map (fun x => t_tags (snd x)) (flat t') = [[]].
 Proof. do 2 eexists. split; [vm_compute; reflexivity|]. split; [vm_compute; reflexivity|]. split; vm_compute; reflexivity. Qed.
 
 (* url.Parse("#").String() = "": the rendered line lacks its third argument and is rejected *)
@@ -1030,3 +1055,103 @@ Section Total.
     intros H; inversion H. exists t0. split; auto. eapply run_inv; eauto.
   Qed.
 End Total.
+
+(* ================= the route order of NewTable (Routes.Less since /repo c1f03c0) ================= *)
+(* the key order IS "lower-cased path first, raw path to break ties" *)
+Lemma compare_succ_succ x y : (N.succ x ?= N.succ y) = (x ?= y).
+Proof.
+  destruct (x ?= y) eqn:E.
+  - apply N.compare_eq in E. subst. apply N.compare_refl.
+  - apply N.compare_lt_iff in E. apply N.compare_lt_iff. now apply N.succ_lt_mono in E.
+  - apply N.compare_gt_iff in E. apply N.compare_gt_iff. now apply N.succ_lt_mono in E.
+Qed.
+
+Lemma key_cmp_gen a b ra rb :
+  str_cmp (map N.succ a ++ [0] ++ ra) (map N.succ b ++ [0] ++ rb)
+  = match str_cmp a b with Eq => str_cmp ra rb | c => c end.
+Proof.
+  revert b. induction a as [|x a IH]; intros [|y b]; cbn [map app str_cmp].
+  - reflexivity.
+  - now destruct y.
+  - now destruct x.
+  - rewrite compare_succ_succ. destruct (x ?= y); auto.
+Qed.
+
+Theorem path_key_cmp p q :
+  str_cmp (path_key p) (path_key q)
+  = match str_cmp (lower p) (lower q) with Eq => str_cmp p q | c => c end.
+Proof. apply key_cmp_gen. Qed.
+
+(* it is a strict total order on paths: trichotomous (only equal paths compare Eq),
+   antisymmetric, transitive *)
+Theorem path_key_eq p q : str_cmp (path_key p) (path_key q) = Eq <-> p = q.
+Proof.
+  rewrite path_key_cmp. split.
+  - destruct (str_cmp (lower p) (lower q)); try discriminate. apply str_cmp_eq.
+  - intros ->. assert (E : str_cmp (lower q) (lower q) = Eq) by now apply str_cmp_eq. rewrite E. now apply str_cmp_eq.
+Qed.
+
+Theorem path_key_antisym p q : str_cmp (path_key q) (path_key p) = CompOpp (str_cmp (path_key p) (path_key q)).
+Proof. apply str_cmp_antisym. Qed.
+
+Lemma str_cmp_trans_lt a : forall b c, str_cmp a b = Lt -> str_cmp b c = Lt -> str_cmp a c = Lt.
+Proof.
+  induction a as [|x a IH]; intros [|y b] [|z c]; cbn [str_cmp]; try discriminate; auto.
+  destruct (x ?= y) eqn:E1; try discriminate; destruct (y ?= z) eqn:E2; try discriminate; intros H1 H2.
+  - apply N.compare_eq in E1, E2. subst. rewrite N.compare_refl. eauto.
+  - apply N.compare_eq in E1. subst. now rewrite E2.
+  - apply N.compare_eq in E2. subst. now rewrite E1.
+  - rewrite N.compare_lt_iff in *. assert (x < z) by lia. apply N.compare_lt_iff in H. now rewrite H.
+Qed.
+
+Theorem path_key_trans p q r :
+  str_ltb (path_key p) (path_key q) = true -> str_ltb (path_key q) (path_key r) = true ->
+  str_ltb (path_key p) (path_key r) = true.
+Proof.
+  unfold str_ltb. destruct (str_cmp (path_key p) (path_key q)) eqn:E1; try discriminate.
+  destruct (str_cmp (path_key q) (path_key r)) eqn:E2; try discriminate. intros _ _.
+  now rewrite (str_cmp_trans_lt _ _ _ E1 E2).
+Qed.
+
+(* sort_routes is a permutation-free rearrangement: same elements ... *)
+Lemma insert_desc_in x r rs : In x (insert_desc r rs) <-> x = r \/ In x rs.
+Proof.
+  induction rs as [|y rs IH]; cbn [insert_desc In]; [intuition|].
+  destruct (str_ltb _ _); cbn [In]; rewrite ?IH; intuition.
+Qed.
+Lemma sort_routes_in x rs : In x (sort_routes rs) <-> In x rs.
+Proof.
+  unfold sort_routes. induction rs as [|r rs IH]; cbn [fold_right In]; [tauto|].
+  rewrite insert_desc_in, IH. intuition.
+Qed.
+
+(* ... in descending key order: no route is followed by one with a greater key *)
+Fixpoint desc_sorted (rs : list route) : Prop :=
+  match rs with
+  | a :: ((b :: _) as r) => str_ltb (route_key a) (route_key b) = false /\ desc_sorted r
+  | _ => True
+  end.
+
+Lemma insert_desc_sorted r rs : desc_sorted rs -> desc_sorted (insert_desc r rs).
+Proof.
+  induction rs as [|x rs IH]; intros Hs; cbn [insert_desc]; [exact I|].
+  destruct (str_ltb (route_key x) (route_key r)) eqn:E.
+  - cbn [desc_sorted]. split; auto. unfold str_ltb in *. rewrite str_cmp_antisym.
+    destruct (str_cmp (route_key x) (route_key r)); try discriminate. reflexivity.
+  - destruct rs as [|y rs]; cbn [insert_desc desc_sorted]; [auto|].
+    cbn [desc_sorted] in Hs. destruct Hs as [Hxy Hs]. specialize (IH Hs). cbn [insert_desc] in IH.
+    destruct (str_ltb (route_key y) (route_key r)) eqn:E2; cbn [desc_sorted]; auto.
+Qed.
+
+Theorem sort_routes_sorted rs : desc_sorted (sort_routes rs).
+Proof.
+  unfold sort_routes. induction rs as [|r rs IH]; cbn [fold_right]; [exact I|]. now apply insert_desc_sorted.
+Qed.
+
+(* NewTable returns every host's routes in that order *)
+Theorem new_table_sorted pweight canon glob_ok text t :
+  new_table pweight canon glob_ok text = Ok t -> Forall (fun hr => desc_sorted (snd hr)) t.
+Proof.
+  intros H. apply new_table_inv in H as (t0 & _ & ->). unfold sort_table. apply Forall_forall.
+  intros hr Hin. apply in_map_iff in Hin as (hr0 & <- & _). cbn [snd]. apply sort_routes_sorted.
+Qed.
